@@ -18,7 +18,7 @@ LEVEL_RULE = (
 ASSUMPTIONS = ["RDKit BondType enum values distinguish single/double/triple/aromatic bond orders"]
 EXHAUSTIVE = True
 BOUNDS = {
-    "quick": "symbols 4 x ids {none,0..12} x prefixes {none,-,=,#,:} x weights {none,scalar,list}; all ordered pairs; 3 construction routes",
+    "quick": "symbols 4 x ids {none,0..12} x prefixes {none,-,=,#,:} x weights {none,scalar,list}; all ordered pairs; 7 construction routes (constructor, token parser x2, terminal, deepcopy, Molecule.elements copy, MolGen copy) + temporaries with short lifetimes",
     "thorough": "as quick plus ids {13..20, 99, 007 (zero padded)}, scalar weight 0, and get_compatible_bond_descriptor_ids against the whole universe for every descriptor",
 }
 CASE_TIMEOUT = {"quick": 300, "thorough": 900}
@@ -99,6 +99,25 @@ def build(d, route):
         tok = gbigsmiles.SmilesToken(txt + pre + "C", 0, 0)
         assert len(tok.bond_descriptors) == 1
         return tok.bond_descriptors[0]
+    if route == "deepcopy":
+        import copy
+
+        return copy.deepcopy(gbigsmiles.BondDescriptor(txt, 0, pre, 0))
+    if route == "molgen":
+        # the copy a growing molecule works with
+        if sym == "" or pre in (":",) or w == "list":
+            return None
+        tok = gbigsmiles.SmilesToken("C" + pre + txt, 0, 0)
+        if not tok.generable:
+            return None
+        from gbigsmiles.mol_gen import MolGen
+
+        return MolGen(tok).bond_descriptors[0]
+    if route == "elements":
+        # the copy handed out by Molecule.elements
+        if sym == "" or w == "list":
+            return None
+        return gbigsmiles.Molecule("C" + pre + txt).elements[0].bond_descriptors[0]
     if route == "terminal":
         if pre != "" or w == "list":
             return None
@@ -110,7 +129,7 @@ def build(d, route):
     raise ValueError(route)
 
 
-ROUTES = ["ctor", "token", "token_lead", "terminal"]
+ROUTES = ["ctor", "token", "token_lead", "terminal", "deepcopy", "elements", "molgen"]
 _CACHE = {}
 
 
@@ -135,6 +154,8 @@ def enumerate_cases(tier, seed):
     for lo in range(0, n, step):
         yield ("pairs", {"tier": tier, "lo": lo, "hi": min(n, lo + step)})
     yield ("filter", {"tier": tier})
+    for lo in range(0, n, 40):
+        yield ("temporaries", {"tier": tier, "lo": lo, "hi": min(n, lo + 40)})
 
 
 def klass(a, b, ra, rb, got):
@@ -182,6 +203,32 @@ def eval_case(kind, data):
         res["nontrivial"] = sorted(map(str, classes))[:1] + [len(classes), data["lo"]]
         res["outcomes"] = [str(c) for c in classes]
         res["sample"] = {"first": str(uni[data["lo"]]), "text": text_of(uni[data["lo"]]), "pairs_checked": npairs}
+        return res
+    if kind == "temporaries":
+        # object lifetimes: a long-lived descriptor is asked about partners that are created, used once and freed
+        # (in CPython the next temporary usually reuses the address of the previous one)
+        import gc
+
+        npairs = 0
+        nstates = 0
+        for a in uni[data["lo"] : data["hi"]]:
+            oa = build(a, "ctor")
+            nstates += 1
+            for b in uni:
+                ob = build(b, "ctor")
+                exp = model_compatible(a, b)
+                got = bool(oa.is_compatible(ob))
+                back = bool(ob.is_compatible(oa))
+                npairs += 1
+                if got != exp or back != exp:
+                    viol(res, klass(a, b, "ctor", "temporary", got if got != exp else f"reverse:{back}"), f"is_compatible({a[2]}{text_of(a)}, temporary {b[2]}{text_of(b)}) = {got} / reverse {back}, conjugation rule says {exp} (the partner was created after earlier partners of the same descriptor had been freed)", {"a": a, "b": b})
+                del ob
+        res["states"] = nstates
+        res["transitions"] = npairs
+        res["traces"] = npairs
+        res["evals"] = npairs
+        res["nontrivial"] = ["temporaries", data["lo"]]
+        res["sample"] = {"long_lived": text_of(uni[data["lo"]]), "temporary_partners": len(uni)}
         return res
     if kind == "filter":
         from gbigsmiles.core import get_compatible_bond_descriptor_ids
